@@ -17,14 +17,18 @@ CLAIMED = {
     "C02": dict(
         text="PARTIAL. Solver-decided kernels the property's mechanisms bottom out in: (Kani) the value-count boundary (ValueRange predicates and From<range> impls, all usize values) and "
              "per-occurrence grouping in MatchedArg (short symbolic op sequences); (MIR->SMT) ArgMatcher::needs_more_vals == 'pending count < max' and Parser::verify_num_args accepting exactly "
-             "the counts inside the declared range; react's delimiter loop contributes every piece of split(value, declared delimiter) unfiltered. Says nothing about token classification or index assignment (DESIGN 0).",
+             "the counts inside the declared range; react's delimiter loop contributes every piece of split(value, declared delimiter) unfiltered, and keeps a delimited value whole exactly under dont_delimit_trailing_values at or after the first "
+             "trailing index (solver clause over the index arithmetic); parse_long_arg / parse_short_arg return MaybeHyphenValue before any key lookup when the pending option OR positional allows hyphen values. "
+             "Says nothing about the rest of token classification or index assignment (DESIGN 0).",
         note="Kernel-level only. Trusted: rustc/Kani translation, std as compiled by Kani, CBMC; for the MIR kernels every callee is a pure opaque value (listed in the evidence).",
         ref="2 C02", technique=MIX),
     "C03": dict(
         text="PARTIAL (thin). (Kani) 'defaults never count as presence': MatchedArg::set_source/check_explicit over all source sequences of length <= 3. (MIR->SMT) the exclusive rule: "
              "Validator::validate_exclusive accepts without search iff at most one argument is explicitly present, counts as present exactly the explicit real arguments, and reports an argument "
-             "iff it is exclusive and not alone. Conflict gathering, the required graph and conditional requirements are out of reach and not claimed.",
-        note="Detects changes to check_explicit/set_source/is_explicit/ValueSource order and to validate_exclusive and its closures only.",
+             "iff it is exclusive and not alone. One pass of each loop of Validator::validate_required from an arbitrary state (who is reported missing; required_if_eq_any is any-of; the highest_index step) "
+             "and the data flow of gather_arg_direct_conflicts (own conflicts, every group's conflicts, other members of a non-multiple group, overrides). "
+             "The required graph (gather_requires / unrolling), conflict search over the matcher and is_missing_required_ok's body are opaque and not claimed.",
+        note="Detects changes to check_explicit/set_source/is_explicit/ValueSource order, validate_exclusive and its closures, the loop bodies of validate_required and gather_arg_direct_conflicts only.",
         ref="2 C03", technique=MIX),
     "C04": dict(
         text="Bounded model checking of the value parsers' decisions: ranged integer parsers on CONCRETE boundary literals against EVERY range (lo, hi over all 64-bit values, "
@@ -37,7 +41,8 @@ CLAIMED = {
     "C05": dict(
         text="PARTIAL (thin). Solver-backed path enumeration (MIR->SMT) of ONE iteration of Parser::parse's token loop entered with trailing_values == true (the bare `--` was seen): on every feasible path the token is "
              "not handed to subcommand recognition, long/short option parsing, the help subcommand or the 'looks like a new argument' test, and positional-only mode is still on when the loop continues. "
-             "Escape detection itself, the `last`/allow_missing_positional counter logic and value storage (react) are opaque callees or outside the fragment.",
+             "Escape detection from the state 'is_escape() and not yet trailing'; the positional-counter block from an arbitrary state: outside the look-ahead case the token goes to the `last` positional "
+             "after `--` (when one exists or missing positionals are allowed), else to the current one; inside it the counter stays or advances by one. Value storage (react) is an opaque callee.",
         note="One loop body as a MIR fragment from an arbitrary state; inner loops are cut at their back edge; every callee is a pure opaque value; a path with a forbidden call must be infeasible "
              "(z3 + cvc5), realised natively through the public API otherwise.",
         ref="2 C05", technique="own MIR->SMT translation: path enumeration of a loop body, infeasibility of violating paths by z3 + cvc5, native replay"),
@@ -57,7 +62,7 @@ CLAIMED = {
     "C08": dict(
         text="PARTIAL (thin). (Kani) lexer-level half of the spelling rewrites: '--name=value' split at the first '=', short cluster walk and exact remainder, "
              "strip of one leading '=' - for all byte strings up to the bound. (MIR->SMT) prefix inference never resolves an ambiguous prefix: possible_subcommand / possible_long_flag_subcommand return an "
-             "inferred name only when the candidate iterator has no second element, parse_long_arg's uniqueness filter and candidate closure likewise. Alias keys and whole-ArgMatches equality are out of reach.",
+             "inferred name only when the candidate iterator has no second element, parse_long_arg's uniqueness filter and candidate closure likewise; the hyphen-value guard of both classifiers (see C02). Alias keys and whole-ArgMatches equality are out of reach.",
         note="Re-uses C13/C14 harnesses over clap_lex; the candidate iterators themselves are opaque (what they enumerate is not decided).",
         ref="2 C08", technique=MIX),
     "C09": dict(
@@ -68,9 +73,9 @@ CLAIMED = {
         ref="2 C09", technique="own MIR->SMT translation: call data-flow on paths, infeasibility of violating paths by z3 + cvc5, native replay"),
     "C10": dict(
         text="PARTIAL. (Kani) kind -> stream -> exit code for EVERY ErrorKind (exhaustive match, symbolic discriminant). (MIR->SMT) value-count verification: Parser::verify_num_args rejects "
-             "exactly the counts outside the declared range and names the rule really broken (empty / wrong number / too few / too many), never when errors are ignored. "
-             "Unknown-token triage, conflict/required justification and suggestions are out of reach.",
-        note="Covers Error::new/stream/use_stderr/exit_code and verify_num_args only.",
+             "exactly the counts outside the declared range and names the rule really broken (empty / wrong number / too few / too many), never when errors are ignored; the unknown-token triage of match_arg_error (which error for which situation); who is named missing by validate_required (one pass of each of its loops, see C03). "
+             "Conflict justification and suggestions are out of reach.",
+        note="Covers Error::new/stream/use_stderr/exit_code, verify_num_args, match_arg_error and the loop bodies of validate_required only.",
         ref="2 C10", technique=MIX),
     "C11": dict(
         text="PARTIAL (very thin). MIR->SMT path enumeration of Command::_build_self: on every feasible path where the Built flag is already set nothing else is called (a second build is a no-op), and every path "
@@ -80,8 +85,9 @@ CLAIMED = {
     "C12": dict(
         text="PARTIAL. Solver-decided (MIR->SMT, z3 + cvc5) absence of integer overflow/underflow in the help column arithmetic (align_to_about, subcmd, arg_next_line_help, subcommand_next_line_help, "
              "with longest_filter and Arg::is_positional inlined; the link between `longest` and the widths is derived from the MIR of write_args' loop body incl. a discharged monotonicity obligation), "
-             "and functional equivalence of the visibility predicates should_show_arg / should_show_subcommand with their documented rule. "
-             "Says nothing about section assembly, templates, wrapping or usage.",
+             "functional equivalence of the visibility predicates should_show_arg / should_show_subcommand with their documented rule; the possible-values block of HelpTemplate::help reaches its "
+             "`.max().expect()` only when some possible value is shown; one pass of Usage::write_args' positional loop skips a hidden positional before anything is rendered or stored for it. "
+             "Says nothing about section assembly, templates or wrapping.",
         note="Call results (display widths, Arg getters) are free symbols under the contracts listed in the evidence; loops are not encoded (one loop body is); "
              "a sat answer is only reported after a native replay on a family of concrete commands misbehaves.",
         ref="2 C12", technique="own MIR->SMT-LIB2 translation of loop-free scalar kernels (bit-vectors), z3 + cvc5, native replay"),
@@ -99,7 +105,8 @@ CLAIMED = {
     "C18": dict(
         text="PARTIAL (thin). Solver-decided (MIR->SMT, z3 + cvc5) panic- and overflow-freedom of ONE iteration of clap_complete::engine::complete's shadow-parse loop from an ARBITRARY state "
              "(parse state, positional index, escape flag, current command havoc'd), with parse_positional / parse_opt_value executed from their own MIR and opt_allows_hyphen / pos_allows_hyphen inlined. "
-             "Nothing is claimed about which candidates are offered (complete_arg and below are opaque) or about the shell adapters.",
+             "complete_arg: on every Ok path hidden candidates are filtered (retain(!hidden) iff any(!hidden)) BEFORE the de-duplication by id; the subcommand level is advanced by Command::find_subcommand(value) "
+             "and nothing else. What complete_option / complete_subcommand / complete_arg_value enumerate and the shell adapters are not decided.",
         note="One loop body as a MIR fragment; callees other than the four helpers are opaque pure values; counters bounded by 2^48; candidates are realised by /verif/native/c18 through the public API.",
         ref="2 C18", technique="own MIR->SMT translation of a loop body (bit-vectors), z3 + cvc5, native replay"),
     "C19": dict(
